@@ -376,7 +376,7 @@ Section BuildInv.
     destruct (take_blob T hc (rs_table T st) (n_targets n)) as [b t'] eqn:Etb.
     pose proof (take_blob_fst _ _ _ _ Etb) as Hfst.
     assert (clock_ok teqb wc) as Hk by apply Hinv.
-    destruct (InvProofs.take_blob_ok T teqb hc _ _ _ _ _ Hk Htbl Etb) as [Hb _].
+    destruct (InvProofs.take_blob_ok T teqb hc teqb_spec _ _ _ _ _ Htbl Etb) as [Hb _].
     fold wc. fold r.
     destruct (read_history T teqb hr wc r) as [h|] eqn:Erh; [|discriminate].
     assert (hist_ok r h) as Hh.
@@ -500,7 +500,7 @@ Section BuildInv.
     destruct (take_blob T hc (rs_table T st) [leaf]) as [b t'] eqn:Etb.
     pose proof (take_blob_fst _ _ _ _ Etb) as Hfst.
     assert (clock_ok teqb (rs_world T st)) as Hk by apply Hinv.
-    destruct (InvProofs.take_blob_ok T teqb hc _ _ _ _ _ Hk Htbl Etb) as [Hb _].
+    destruct (InvProofs.take_blob_ok T teqb hc teqb_spec _ _ _ _ _ Htbl Etb) as [Hb _].
     unfold handle_leaf. destruct (current_tickets teqb hc (rs_world T st) b) as [ts|p] eqn:Ect; intro Hrs'.
     - pose proof (current_tickets_hash T teqb hc _ _ _ Hb Ect) as Hts. rewrite Hfst, Hw in Hts.
       assert (exists c, content_at w1 leaf = Some c /\ ts = [hc c]) as (c & Hc & ->).
